@@ -68,6 +68,12 @@ def swap(prog, inventory):
             differing.append(q)
     prog.swapped = swapped
     prog.differing = differing
+    # the plain local = attribute-chain assignments of the reference version of every differing function (N0 keeps those aliases)
+    prog.ref_aliases = {}
+    for q in differing:
+        r = ref.functions.get(q)
+        if r is not None:
+            prog.ref_aliases[q] = {unparse(st) for st in ast.walk(r.node) if isinstance(st, ast.Assign) and isinstance(st.value, ast.Attribute)}
     _drop_dead_helpers(prog, inv)
 
 
